@@ -115,6 +115,10 @@ class Policy(object):
     def compare_raises(self, node, frame):
         return frozenset()
 
+    def call_binding_raises(self, call, target, frame):
+        """atoms that binding the arguments of `call` to its (resolved) callee may raise"""
+        return frozenset()
+
     def subscript_store_raises(self, target, frame):
         """atoms a subscript store `obj[k] = v` may raise (the container's __setitem__)"""
         return frozenset()
@@ -382,6 +386,16 @@ class Builder(object):
     # ------------------------------------------------------------------ calls
     def call(self, c, ctx, frame, target=None):
         t = target or self.policy.call_target(c, frame)
+        br = self.policy.call_binding_raises(c, t, frame) if target is None else frozenset()
+        if br:
+            # binding the arguments can fail before the callee runs (a caller-supplied **kwargs name equal to one of the callee's own
+            # parameters: "got multiple values for argument")
+            inner = self.call(c, ctx, frame, target=t)
+            n = self.node('truth', c, frame, what='argument binding of ' + norm(c.func))
+            n.edge('next', inner)
+            for a in sorted(br):
+                n.edge('exc:' + a, ctx.exc[a])
+            return n
         if t.kind == 'inline' and self._can_inline(t.func, frame):
             return self.inline_value(c, t, ctx, frame)
         n = self.node('call', c, frame, target=t, what='call ' + t.label)
